@@ -100,6 +100,10 @@ func (c *Ctx) Machineryf(f string, a ...interface{}) {
 }
 
 func (c *Ctx) AddSample(s interface{}) {
+	// a raw JSON fragment that is not valid JSON (a cut line) is kept as text
+	if rm, ok := s.(json.RawMessage); ok && !json.Valid(rm) {
+		s = string(rm)
+	}
 	c.mu.Lock()
 	if len(c.Samples) < 12 {
 		c.Samples = append(c.Samples, s)
@@ -552,7 +556,16 @@ func (c *Ctx) Finish() int {
 	if c.Assume == nil {
 		ev["assumptions"] = []string{}
 	}
-	b, _ := json.MarshalIndent(ev, "", " ")
+	b, merr := json.MarshalIndent(ev, "", " ")
+	if merr != nil {
+		// never leave an invalid evidence file behind: drop what cannot be rendered and say so
+		c.Machinery = append(c.Machinery, "evidence could not be rendered: "+merr.Error())
+		fmt.Println("MACHINERY evidence could not be rendered:", merr)
+		delete(cov, "samples")
+		delete(cov, "info")
+		cov["samples"] = []string{"samples dropped: " + merr.Error()}
+		b, _ = json.MarshalIndent(ev, "", " ")
+	}
 	os.MkdirAll(filepath.Join(VerifRoot, "evidence"), 0755)
 	os.WriteFile(filepath.Join(VerifRoot, "evidence", c.ID+".json"), append(b, '\n'), 0644)
 	if !c.Keep {
